@@ -414,18 +414,24 @@ class SVGLexicalParser:
             elif cmd == "h":
                 while True:
                     value = self._number()
+                    if value is None:
+                        raise ValueError
                     self.parser.horizontal(value, relative=True)
                     if not self._more():
                         break
             elif cmd == "H":
                 while True:
                     value = self._number()
+                    if value is None:
+                        raise ValueError
                     self.parser.horizontal(value, relative=False)
                     if not self._more():
                         break
             elif cmd == "v":
                 while True:
                     value = self._number()
+                    if value is None:
+                        raise ValueError
                     self.parser.vertical(value, relative=True)
                     if not self._more():
                         break
@@ -539,7 +545,9 @@ class SVGLexicalParser:
                         self._flag(),
                         self._rcoord(),
                     )
-                    if sweep is None:
+                    if rx is None or ry is None or rotation is None:
+                        raise ValueError
+                    if arc is None or sweep is None:
                         raise ValueError
                     if coord is None:
                         coord = self.inline_close
@@ -556,6 +564,10 @@ class SVGLexicalParser:
                         self._flag(),
                         self._coord(),
                     )
+                    if rx is None or ry is None or rotation is None:
+                        raise ValueError
+                    if arc is None or sweep is None:
+                        raise ValueError
                     if coord is None:
                         coord = self.inline_close
                         if coord is None:
